@@ -15,9 +15,13 @@ for d in "$@"; do
     C01|C02|C13) ids="C01 C02 C13 C08 C17";;
     C16) ids="C16 C17";;
     C18) ids="C18 C17 C08";;
-    C03|C04|C05|C11) ids="C03 C04 C05 C11 C08";;
-    C06|C12) ids="C06 C12 C16";;
+    C03|C04|C05|C11) ids="C03 C04 C05 C11 C08 C16";;
+    C06|C12) ids="C06 C12 C16 C17";;
     C07) ids="C07";;
+    C08) ids="C08 C05 C18 C09";;
+    C09) ids="C09 C08 C05 C01 C02 C13 C15";;
+    C15) ids="C15 C09 C01 C02 C16 C20";;
+    C17) ids="C17 C16 C02 C13";;
     *) ids="$pid";;
   esac
   git -C $R checkout -q -- . ; git -C $R clean -fdq
@@ -26,9 +30,9 @@ for d in "$@"; do
   for id in $ids; do
     [ -f $V/ledger/$id.json ] || continue
     o=$(PVC_REPO=$R PVC_VERIF=$V /verif/bin/pvc check $id 2>&1)
-    nv=$(echo "$o" | grep -c "^VIOLATION")
+    nv=$(echo "$o" | grep -c "^VIOLATION"); nu=$(echo "$o" | grep -c "^UNDECIDED"); nvac=$(echo "$o" | grep -c "^VACUOUS")
     first=$(echo "$o" | grep "^VIOLATION" | head -1 | sed 's/.*obligation=//' | cut -c1-120)
-    res="$res{\"check\":\"$id\",\"violations\":$nv,\"first\":\"$first\"},"
+    res="$res{\"check\":\"$id\",\"violations\":$nv,\"undecided\":$nu,\"vacuous\":$nvac,\"first\":\"$first\"},"
   done
   echo "{\"mutant\":\"$name\",\"applies\":true,\"results\":[${res%,}]}" >> $out
 done
